@@ -54,6 +54,11 @@ def seeds_table():
         d = json.load(open(m))
         prop = d['property']
         ch = (d.get('checks') or {}).get(prop, {})
+        rr = d.get('repo_route') or {}
+        if rr.get('deciders') is not None:
+            # the latest run through `git -C /repo apply` against the final machinery
+            ch = dict(ch, exit=rr['exit'], violations=rr['violations'], first=rr['first'], deciders=rr['deciders'])
+            d = dict(d, caught=(rr['exit'] == 1 and rr['violations'] > 0))
         needs = (d.get('needs') or '').strip().split('\n')
         title = next((l.strip() for l in needs if l.strip() and not set(l.strip()) <= set('=-')), '')
         first = (ch.get('first') or [''])[0]
@@ -67,7 +72,7 @@ def seeds_table():
             dec, (ob.group(1) if ob else '')[:90]))
     rows.append('')
     rows.append('Totals: %d seeds, %d caught; decided by: %s.' % (
-        len(metas), sum(1 for m in metas if json.load(open(m)).get('caught')),
+        len(metas), sum(1 for m in metas if (lambda x: (x.get('repo_route') or {}).get('exit', 1 if x.get('caught') else 0) == 1)(json.load(open(m)))),
         ', '.join('%s %d' % kv for kv in sorted(tot.items()))))
     return '\n'.join(rows)
 
